@@ -29,6 +29,10 @@
 #include <fcntl.h>
 #include <errno.h>
 #include <time.h>
+#include <signal.h>
+#ifdef __SANITIZE_ADDRESS__
+#include <sanitizer/common_interface_defs.h>
+#endif
 
 #include "buffer.h"
 #include "chunk.h"
@@ -47,6 +51,11 @@ static int tmpfd = -1;
 #define FILE_BASE 7   /* representation bytes start at this file offset */
 
 static void tmp_cleanup(void) { if (tmpfd >= 0) { close(tmpfd); unlink(tmpname); } }
+
+/* keep the output of the cases before a sanitizer report / abort, so that the first
+ * line without output is the failing one; remove the temp file */
+static void on_death(void) { fflush(stdout); if (tmpfd >= 0) unlink(tmpname); }
+static void on_abort(int sig) { on_death(); signal(sig, SIG_DFL); raise(sig); }
 
 static int absent(const char *t) { return t[0] == '~' && t[1] == 0; }
 
@@ -168,6 +177,11 @@ int main(void) {
     tmpfd = mkstemp(tmpname);
     if (tmpfd < 0) { perror("mkstemp"); return 2; }
     atexit(tmp_cleanup);
+  #ifdef __SANITIZE_ADDRESS__
+    __sanitizer_set_death_callback(on_death);
+  #endif
+    signal(SIGABRT, on_abort);
+    setvbuf(stdout, NULL, _IOLBF, 0);  /* (UBSan's own runtime does not run the callback) */
 
     request_st rq; memset(&rq, 0, sizeof(rq));
     request_st * const r = &rq;
